@@ -436,7 +436,7 @@ pub fn bloom_strategy() -> BoxedStrategy<BloomCase> {
     ];
     (
         cap,
-        proptest::sample::select(vec![1u32, 10, 50, 100, 300]),
+        prop_oneof![6 => proptest::sample::select(vec![1u32, 10, 50, 100, 300]), 2 => proptest::sample::select(vec![500u32, 708, 720, 900, 999]), 1 => proptest::sample::select(vec![1000u32, 2000, 4000, 7000])],
         hashes,
         proptest::collection::vec(op, 1..80),
         prop_oneof![2 => Just(0u64), 1 => 1u64..u64::MAX],
@@ -521,7 +521,8 @@ fn run_bloom_inner(c: &BloomCase) -> Result<CompFeats, String> {
         feats.nontrivial = true;
     }
     // false-positive bound for uniformly random hashes
-    if c.fp_seed != 0 && c.cap >= 50 {
+    // (a rate of 1 or more selects the constructor's other form: `cap` bits and `rate` probe locations)
+    if c.fp_seed != 0 && c.cap >= 50 && rate < 1.0 {
         let mut bl = sv::Bloom::new(c.cap, rate);
         let mut s = c.fp_seed;
         let mut members = std::collections::HashSet::new();
@@ -561,7 +562,7 @@ fn run_bloom_inner(c: &BloomCase) -> Result<CompFeats, String> {
     }
     // false-positive bound for hashes that differ only in the high bits the filter hashes on:
     // ids in the top log2(bits) bits, low bits zero; even ids are added, odd ids probed
-    if c.fp_aligned {
+    if c.fp_aligned && rate < 1.0 {
         let mut bl = sv::Bloom::new(c.cap, rate);
         let (bits, _locs) = bl.params();
         let e = 63 - bits.leading_zeros() as u64; // bits is a power of two
